@@ -88,7 +88,7 @@ CHECKS = {
             'within cap+1 sweeps with earlier periods intact, solve every sup-norm contraction (<=0.8) within the default cap, and '
             'reject every reserved name / duplicate / ill-formed declaration before numbers exist.',
             'DESIGN.md section 6 C11'),
-    'C12': (['Equation', 'Equation_Trace'],
+    'C12': (['Equation', 'Equation_Trace', 'EquationObj', 'EquationObj_Trace'],
             'TLA+ spec Equation.tla model-checked exhaustively by TLC; every TLC-generated behaviour replayed on the real '
             'Equation/Term/create_equation_from_terms; recorded executions validated by TLC against Equation_Trace.tla',
             'All histories Start(kind,lead); AddTerm^n (n<=2 quick, <=3 thorough) and all term lists (<=2/<=3) of the bounded '
@@ -109,6 +109,16 @@ CHECKS = {
             'All histories (<=4 quick, <=5 thorough) of Get / MutateHeld / SetSuppress / SetCutoff / RenderTable / BaseCsv are '
             'enumerated by TLC with the action property C16_ReadsArePure and invariants; each is executed on the real objects.',
             'DESIGN.md section 6 C16'),
+    'C17': (['Process', 'Process_Trace'],
+            'TLA+ spec Process.tla (process-wide id counter and logs, per-model and per-solver state, cached variable list, '
+            'trace settings) model-checked by TLC; every interleaving executed in real Python processes (sequentially '
+            'accumulating history) and compared with the same model / block run alone in a fresh subprocess; traces '
+            'validated by TLC against Process_Trace.tla',
+            'All histories (<=5 quick, <=6 thorough) of NewModel / Declare / Main / RegisterLogs / Cleanup / Solve / SolveAgain / '
+            'SetTrace / Reparse are enumerated by TLC with C17_HistoryIndependent, C17_ResolveIdempotent, C17_ReparseClean; every '
+            'model and solver must give bit-identical series to its fresh-process reference, and a re-parsed solver exactly the '
+            'new block\'s variables.',
+            'DESIGN.md section 6 C17'),
     'C18': (['ModelBuild', 'ModelBuild_Trace'], MB,
             'TLC checks every ModelBuild invariant on renamed twins and on joint models of two currencies, plus C18_ZoneIsolation; '
             'sampled behaviours are rebuilt as generated and under a seeded injective renaming of country / sector / goods-labour '
